@@ -101,6 +101,18 @@ Theorem c03_conj_clean_sound :
     eval_conj v (conj_clean c) = eval_conj v c /\ conj_wf (conj_clean c).
 Proof. exact conj_clean_sound. Qed.
 
+(* cleanHostConditions on filters between two host VARIABLES (no literal address): `chost:@shost@/40` and
+   `-chost:@shost@/48` have equal IPv4 masks and different IPv6 masks; both hold on an IPv6 stream whose addresses differ
+   first in bit 40, and the cleaned conjunct keeps both (also when both are negated). c03_conj_clean_sound above covers
+   every such pair; this is the instance a clean that compares only the IPv4 mask gets wrong (seeded change C03-r5a-n1). *)
+Theorem c03_host_variable_filters_keep_both_masks :
+  val_ok ex_v6 /\ host_wf (ex_hv 5 false) /\ host_wf (ex_hv 6 true) /\
+  h_m4 (ex_hv 5 false) = h_m4 (ex_hv 6 true) /\ h_m6 (ex_hv 5 false) <> h_m6 (ex_hv 6 true) /\
+  eval_host ex_v6 (ex_hv 5 false) = true /\ eval_host ex_v6 (ex_hv 6 true) = true /\
+  clean_host [ex_hv 5 false; ex_hv 6 true] = Some [ex_hv 5 false; ex_hv 6 true] /\
+  clean_host [ex_hv 5 true; ex_hv 6 true] = Some [ex_hv 5 true; ex_hv 6 true].
+Proof. exact host_variable_masks_witness. Qed.
+
 (* Condition.invert, for every kind of condition: !(a > b > c) = !a | a > !b | a > b > !c included *)
 Theorem c03_cond_invert_sound :
   forall (v : valuation), val_ok v -> forall c : cond, cond_wf c ->
